@@ -23,6 +23,15 @@ ANS_LAWS = ["TypeInv", "StateInv", "LawPopAfterPush", "LawPushAfterPop", "LawDec
             "LawSizes", "LawStepBound", "LawBinary"]
 
 
+def narrow_replay(ctx, w, mode, cases):
+    """The same cases once more with models whose Probability type is narrower than the coder's Word type (U2 for 3-bit words,
+    U3 for 4-bit words; `M::Probability: Into<Word>`): used for every precision that fits into the narrow type, so that
+    PRECISION < Probability::BITS < Word::BITS occurs."""
+    if w >= 3:
+        ctx.vh("replay", mode=mode, infile=cases, extra=["--narrow"])
+        ctx.classes["narrow_probability_type_replays"] = ctx.classes.get("narrow_probability_type_replays", 0) + 1
+
+
 def ans_states(ctx, laws, mode, widths=None):
     """TLC: explore Ans.tla exhaustively at each width, checking `laws` in every state and emitting one replay
     case per state; harness: replay the cases in `mode` on the real AnsCoder."""
@@ -36,12 +45,18 @@ def ans_states(ctx, laws, mode, widths=None):
                           {"k": "spec", "module": "MC_Ans", "constants": st["constants"]})
             continue
         ctx.vh("replay", mode=mode, infile=cases)
+        narrow_replay(ctx, w, mode, cases)
 
 
 # (w, s, precisions) driven by the random-history drivers; exact validation needs s <= 16
 ANS_DRIVE_QUICK = [(8, 16, "1,2,3,4,5,6,7,8"), (2, 4, "1,2"), (3, 6, "1,2,3"), (16, 32, "1,4,8,12,16"), (32, 64, "1,8,12,16,24,32"), (16, 64, "1,8,12,16"), (8, 32, "1,4,8"),
                    (8, 128, "1,4,8"), (64, 128, "1,16,32,40,48")]
 ANS_DRIVE_THOROUGH = ANS_DRIVE_QUICK + [(2, 6, "1,2"), (4, 8, "1,2,3,4"), (4, 12, "1,2,3,4"), (32, 128, "1,16,24,32"), (16, 128, "1,8,16"), (8, 64, "1,4,8"), (2, 8, "1,2")]
+
+
+# real widths at which the drivers use models with a Probability type narrower than Word (u16 for u32 words, u8 for u16 words,
+# U4 for u8 words, u32 for u64 words) for every precision that fits
+NARROW_DRIVE = {(16, 64): ["--narrow"], (8, 32): ["--narrow"], (64, 128): ["--narrow"], (32, 128): ["--narrow"]}
 
 
 def big_job(ctx, module, base, w, s, what, max_events=None):
@@ -65,7 +80,7 @@ def ans_traces(ctx, exact, abstract):
     jobs = []
     for (w, s, precs) in (ANS_DRIVE_THOROUGH if ctx.tier == "thorough" else ANS_DRIVE_QUICK):
         base = os.path.join(ctx.work, "anstrace_%d_%d" % (w, s))
-        ctx.vh("drive_ans", extra=["--w", str(w), "--s", str(s), "--precs", precs, "--n", str(n), "--trace", base])
+        ctx.vh("drive_ans", extra=["--w", str(w), "--s", str(s), "--precs", precs, "--n", str(n), "--trace", base] + NARROW_DRIVE.get((w, s), []))
         if exact and s <= 16:
             jobs.append(dict(module="TraceAns", trace=base + ".exact.ndjson", constants={"W": w, "S": s}, invariants=["StateInv"], what="AnsCoder<%d,%d> exact" % (w, s)))
         if exact:
@@ -120,6 +135,7 @@ def range_hists(ctx, invs, mode, widths=None, spec_violation_is=None):
             ctx.violation("specification invariant %s fails at W=%d S=%d:\n%s" % (st["spec_violation"], w, s, st.get("counterexample", "")),
                           {"k": "spec", "module": "MC_Range", "constants": st["constants"], "invariant": st["spec_violation"]})
         ctx.vh("replay", mode=mode, infile=cases)
+        narrow_replay(ctx, w, mode, cases)
 
 
 # (W, S, MaxData, MaxSyms, PSet)
@@ -136,6 +152,7 @@ def rdec_cases(ctx, mode):
             ctx.violation("specification invariant %s fails at W=%d S=%d:\n%s" % (st["spec_violation"], w, s, st.get("counterexample", "")), {"k": "spec", "module": "MC_RangeDec"})
             continue
         ctx.vh("replay", mode=mode, infile=cases)
+        narrow_replay(ctx, w, mode, cases)
 
 
 RANGE_CLASSES = ["no_renorm", "normal_normal", "normal_inverted", "inverted_inverted", "resolve_carry", "resolve_nocarry",
@@ -155,7 +172,7 @@ def range_traces(ctx, exact):
     jobs = []
     for (w, s, precs) in (RANGE_DRIVE_THOROUGH if ctx.tier == "thorough" else RANGE_DRIVE_QUICK):
         base = os.path.join(ctx.work, "rangetrace_%d_%d" % (w, s))
-        ctx.vh("drive_range", extra=["--w", str(w), "--s", str(s), "--precs", precs, "--n", str(n), "--trace", base])
+        ctx.vh("drive_range", extra=["--w", str(w), "--s", str(s), "--precs", precs, "--n", str(n), "--trace", base] + NARROW_DRIVE.get((w, s), []))
         if exact and s <= 16:
             jobs.append(dict(module="TraceRange", trace=base + ".exact.ndjson", constants={"W": w, "S": s}, invariants=["StateInv"], what="RangeEncoder/Decoder<%d,%d> exact" % (w, s)))
         if exact:
@@ -456,6 +473,7 @@ def chain_cases(ctx, mode, laws=None):
             ctx.violation("specification law %s fails at W=%d S=%d:\n%s" % (st["spec_violation"], w, s, st.get("counterexample", "")), {"k": "spec", "module": "MC_Chain"})
             continue
         ctx.vh("replay", mode=mode, infile=cases)
+        narrow_replay(ctx, w, mode, cases)
 
 
 CHAIN_DRIVE_QUICK = [(8, 16, "1,4,8"), (2, 6, "1,2"), (3, 6, "1,2,3"), (16, 32, "8,12,16"), (32, 64, "16,24,32"), (16, 64, "12,16"), (8, 32, "4,8"),
@@ -469,7 +487,7 @@ def chain_traces(ctx):
     n = 3000 if ctx.tier == "thorough" else 400
     for (w, s, precs) in (CHAIN_DRIVE_THOROUGH if ctx.tier == "thorough" else CHAIN_DRIVE_QUICK):
         base = os.path.join(ctx.work, "chaintrace_%d_%d" % (w, s))
-        ctx.vh("drive_chain", extra=["--w", str(w), "--s", str(s), "--precs", precs, "--n", str(n), "--trace", base])
+        ctx.vh("drive_chain", extra=["--w", str(w), "--s", str(s), "--precs", precs, "--n", str(n), "--trace", base] + NARROW_DRIVE.get((w, s), []))
         if s <= 16:
             ctx.validate_trace("TraceChain", base + ".exact.ndjson", {"W": w, "S": s}, what="ChainCoder<%d,%d> exact" % (w, s))
     for c in ("restore_same", "restore_suffix", "restore_concat"):
